@@ -11,7 +11,7 @@ use tokio::{fs::File, io::AsyncReadExt};
 pub(super) async fn read_cert(path: &Path) -> anyhow::Result<CertificateDer<'static>> {
     match read_one_async(path).await? {
         Item::X509Certificate(cert) => Ok(cert),
-        item => anyhow::bail!("expected X.509 certificate, got {item:?}"),
+        item => anyhow::bail!("expected X.509 certificate, got {}", kind(&item)),
     }
 }
 
@@ -20,7 +20,19 @@ pub(super) async fn read_private_key(path: &Path) -> anyhow::Result<PrivateKeyDe
         Item::Pkcs1Key(key) => Ok(key.into()),
         Item::Pkcs8Key(key) => Ok(key.into()),
         Item::Sec1Key(key) => Ok(key.into()),
-        item => anyhow::bail!("expected private key, got {item:?}"),
+        item => anyhow::bail!("expected private key, got {}", kind(&item)),
+    }
+}
+
+/// What kind of PEM section `item` is. The content is not printed: a section that carries the
+/// wrong label (a key exported as `CERTIFICATE`) would end up in the log in full.
+fn kind(item: &Item) -> &'static str {
+    match item {
+        Item::X509Certificate(_) => "an X.509 certificate",
+        Item::Pkcs1Key(_) | Item::Pkcs8Key(_) | Item::Sec1Key(_) => "a private key",
+        Item::Crl(_) => "a certificate revocation list",
+        Item::Csr(_) => "a certificate signing request",
+        _ => "another kind of PEM section",
     }
 }
 
